@@ -39,15 +39,16 @@ def bitarrayMeaning (ba : Bits) : List Py.Act → Option Bits
   | [⟨"self._bitstore = BitStore(ba[_:_])", [some a, some b]⟩] => some (pySlice ba (some a) (some b))
   | _ => none
 
-/-- Closes the leaves left after the guards have been split: identical results (`rfl`), contradictory guards
-    (`contradiction` / `omega`; arises only if source and model write a comparison differently), or equal results
-    whose index arithmetic is written differently (`simp`, then congruence + linear arithmetic by `grind`). -/
+/-- Closes the leaves left after ALL guards of both sides have been split with `split_ifs` (whatever their order,
+    nesting or polarity in the source): contradictory guards (`omega`, or a literal `False`), syntactically identical
+    results (`with_reducible rfl`), or results that agree after unfolding the meaning (`simp`) up to the way the
+    index arithmetic is written (`omega` / congruence + linear arithmetic by `grind`). -/
 local macro "leaf" : tactic =>
   `(tactic| first
-    | rfl
-    | contradiction
     | omega
-    | (simp; first | done | grind))
+    | (exfalso; assumption)
+    | with_reducible rfl
+    | (simp [Except.map, bytesMeaning, bitarrayMeaning]; first | done | omega | grind))
 
 /-- `Bits._setbytes_with_truncation` as the source has it now = `C15.bytesWin`, for every byte string, offset and
     length.  NB the argument order: Python `(data, length, offset)`, translated function `(length, offset, len(data))`,
